@@ -83,7 +83,7 @@ def okC04quota (ctx : Ctx) (c2 : Ctx2) (acts : List (Act α)) : Bool :=
       else true)
 
 /-- C04(b), election completeness: at the first decision taken after an election step no hopeful holds a quota.
-    Gregory (not mpls, which elects one candidate at a time): the first tie/unpend/defeat after a `round`;
+    Gregory: the first tie/unpend/defeat after a `round` (mpls elects one candidate at a time: its two rules are in the code);
     meek/warren: every `iterate`; meek-prf: every tie and pre-exclusion `defeat`. -/
 def okC04complete (ctx : Ctx) (acts : List (Act α)) : Bool :=
   let noQuotaLeft (s : Snap α) : Bool := (hopefulOf s).all (fun e => !(ruleHasQuota A ctx e.2.2.1 s.quota))
@@ -92,7 +92,14 @@ def okC04complete (ctx : Ctx) (acts : List (Act α)) : Bool :=
     | (a, s) :: rest =>
       match ctx.method with
       | .wigm =>
-        if ctx.rule == "mpls" then true
+        if ctx.rule == "mpls" then
+          -- Minneapolis elects one candidate per round, so a hopeful may hold the threshold for a while; but (step a) a new
+          -- round is never opened while the elected and the declared hopefuls at the threshold could fill every seat,
+          -- and (step e) the lowest candidate is never excluded while a declared hopeful is at the threshold
+          let atT := (hopefulOf s).filter (fun e => ctx.electable.contains e.1 && ruleHasQuota A ctx e.2.2.1 s.quota)
+          (!(a.tag == "round" && a.round ≥ 2) || decide (electedCount s + atT.length < ctx.seats))
+          && (!(a.tag == "defeat" && a.verb == "Defeat low candidate") || atT.isEmpty)
+          && go armed rest
         else if a.tag == "round" then go true rest
         else if a.tag == "elect" then go armed rest
         else if armed && (a.tag == "tie" || a.tag == "unpend" || (a.tag == "defeat" && !(isRemaining a))) then
